@@ -180,12 +180,23 @@ def make_env(w: World, main):
             return f"ATOM  {self._desc[1]:5d} "
 
     class FakeResidue(Obj):
-        def __init__(self, i, charge):
+        def __init__(self, i, charge, spec=None):
             super().__init__(("residue", i))
             self.atoms = [FakeAtom(2 * i), FakeAtom(2 * i + 1)]
             self._charge = charge
             self.name = "ALA"
             self.res_seq = i
+            if spec is not None:
+                # (residue name, [(atom name, record type, has force-field parameters)])
+                self.name = spec[0]
+                self.atoms = []
+                for k, (an, rt, has_ff) in enumerate(spec[1]):
+                    a = FakeAtom(100 * i + k)
+                    a.name, a.type, a.has_ff = an, rt, has_ff
+                    a.residue = self
+                    a.ffcharge = 0.125 if has_ff else None
+                    a.radius = 1.5 if has_ff else None
+                    self.atoms.append(a)
 
         @property
         def charge(self):
@@ -199,7 +210,10 @@ def make_env(w: World, main):
             super().__init__(("biomolecule",))
             w.stage("Biomolecule", pdblist, definition)
             charges = w.charges if w.charges is not None else [0.0] * w.nres
-            self.residues = [FakeResidue(i, c) for i, c in enumerate(charges)]
+            if getattr(w, "residue_specs", None):
+                self.residues = [FakeResidue(i, 0.0, spec) for i, spec in enumerate(w.residue_specs)]
+            else:
+                self.residues = [FakeResidue(i, c) for i, c in enumerate(charges)]
             self.pdblist = pdblist
             self.num_heavy = 100
 
@@ -219,6 +233,8 @@ def make_env(w: World, main):
 
         def apply_force_field(self, ff):
             w.stage("bm.apply_force_field", ff)
+            if getattr(w, "residue_specs", None):
+                return [a for a in self.atoms if a.has_ff], [a for a in self.atoms if not a.has_ff]
             return list(self.atoms), []
 
         def __getattr__(self, name):
@@ -262,7 +278,7 @@ def make_env(w: World, main):
     class FakeLigand(Obj):
         def __init__(self):
             super().__init__(("ligand",))
-            self.atoms = {}
+            self.atoms = dict(getattr(w, "ligand_atoms", None) or {})
 
         def assign_parameters(self):
             w.stage("ligand.assign_parameters")
